@@ -237,7 +237,7 @@ Print Assumptions C12_refused_login_keeps_runid.
    presents svr.runID and remembers the answer's run id only after the error check; a proxy's own name is
    the wire name verbatim; Run of an stcp/sudp proxy is VisitorManager.Listen and nothing else ---- *)
 Theorem C12_source_matches_model_atomicity :
-  c12_source_ok c12_handlers c12_crit c12_client_login c12_name_assign c12_vis_run = true.
+  c12_source_ok c12_handlers c12_crit c12_client_login c12_name_assign c12_vis_run c12_randid = true.
 Proof. vm_compute. reflexivity. Qed.
 Print Assumptions C12_source_matches_model_atomicity.
 
